@@ -163,10 +163,146 @@ fn threads_child(a: &[String]) -> ! {
     clock_bound_d::verif::fault::arm(n(0), n(1), n(2));
     // optional 4th value: hold the dying thread for that many ms between its notice to the main thread and the closing of its mailbox
     clock_bound_d::verif::fault::set_notify_delay(n(3));
+    // optional 5th value: a stand-in chronyd on /var/run/chrony/chronyd.sock answers that many tracking requests (synchronised),
+    // then goes away with its socket (chronyd restarting): the following polls fail at once, inside the poller's grace period
+    let answers = n(4);
+    if answers > 0 {
+        fake_chronyd(answers, isolated);
+    }
     let t0 = std::time::Instant::now();
     clock_bound_d::thread_manager::run(1000, None);
     println!("returned_ms={} isolated={}", t0.elapsed().as_millis(), isolated);
     std::process::exit(0);
+}
+
+fn fake_chronyd(answers: u32, isolated: bool) {
+    use chrony_candm::reply::{Reply, ReplyBody, Status};
+    let _ = std::fs::create_dir_all("/var/run/chrony");
+    if isolated {
+        unsafe {
+            libc::mount(
+                b"none\0".as_ptr() as *const libc::c_char,
+                b"/var/run/chrony\0".as_ptr() as *const libc::c_char,
+                b"tmpfs\0".as_ptr() as *const libc::c_char,
+                0,
+                std::ptr::null(),
+            );
+        }
+    }
+    let path = "/var/run/chrony/chronyd.sock";
+    let _ = std::fs::remove_file(path);
+    let sock = match std::os::unix::net::UnixDatagram::bind(path) {
+        Ok(s) => s,
+        Err(e) => {
+            println!("fake_chronyd_bind_failed={}", e.to_string().replace(' ', "_"));
+            return;
+        }
+    };
+    std::thread::spawn(move || {
+        let mut buf = [0u8; 1500];
+        let mut left = answers;
+        while left > 0 {
+            let (len, from) = match sock.recv_from(&mut buf) {
+                Ok(x) => x,
+                Err(_) => break,
+            };
+            if len < 12 {
+                continue;
+            }
+            let sequence = u32::from_be_bytes([buf[8], buf[9], buf[10], buf[11]]);
+            let cmd = u16::from_be_bytes([buf[4], buf[5]]);
+            let t = daemon::tracking(0.000001, 0.0001, 0.0001, 16.0, 0, std::time::SystemTime::now(), 0x7f7f0101);
+            let reply = Reply { status: Status::Success, cmd, sequence, body: ReplyBody::Tracking(t) };
+            let mut out: Vec<u8> = Vec::with_capacity(reply.length());
+            reply.serialize(&mut out);
+            if let Some(p) = from.as_pathname() {
+                let _ = sock.send_to(&out, p);
+            }
+            left -= 1;
+        }
+        drop(sock);
+        let _ = std::fs::remove_file(path);
+    });
+}
+
+/// child mode: `replay --openchild <path>`: what a client does first: ShmReader::new, then one snapshot()
+fn openchild(a: &[String]) -> ! {
+    let path = a.get(0).cloned().unwrap_or_default();
+    let cpath = std::ffi::CString::new(path).unwrap();
+    let t0 = std::time::Instant::now();
+    let r = clock_bound_shm::ShmReader::new(&cpath);
+    let open_ms = t0.elapsed().as_millis();
+    let res = match r {
+        Ok(mut rd) => format!("opened=true snapshot_ok={}", rd.snapshot().is_ok()),
+        Err(e) => format!("opened=false err={}", shm_err(&e)),
+    };
+    println!("{} open_ms={}", res, open_ms);
+    std::process::exit(0);
+}
+
+/// openlocked <flock|posix|ofd|none> [watchdog_ms]: another process (this one, standing for a daemon stopped - not dead - while it
+/// holds a lock on the segment file) keeps an exclusive lock of that kind on a valid segment; a client process opens the segment.
+fn cmd_openlocked(a: &[&str]) -> String {
+    let kind = a.get(0).copied().unwrap_or("flock");
+    let wd: u64 = a.get(1).and_then(|x| x.parse().ok()).unwrap_or(3000);
+    let path = seg::tmp_path("ol");
+    let mut bytes = seg::header_bytes(72, 1, 2);
+    bytes.extend_from_slice(&[0u8; 56]);
+    if std::fs::write(&path, &bytes).is_err() {
+        return "io".into();
+    }
+    let file = match std::fs::OpenOptions::new().read(true).write(true).open(&path) {
+        Ok(f) => f,
+        Err(_) => return "io".into(),
+    };
+    use std::os::unix::io::AsRawFd;
+    let fd = file.as_raw_fd();
+    let locked = unsafe {
+        match kind {
+            "flock" => libc::flock(fd, libc::LOCK_EX | libc::LOCK_NB) == 0,
+            "posix" | "ofd" => {
+                let mut fl: libc::flock = std::mem::zeroed();
+                fl.l_type = libc::F_WRLCK as i16;
+                fl.l_whence = libc::SEEK_SET as i16;
+                fl.l_start = 0;
+                fl.l_len = 0;
+                libc::fcntl(fd, if kind == "ofd" { libc::F_OFD_SETLK } else { libc::F_SETLK }, &fl) == 0
+            }
+            _ => true,
+        }
+    };
+    let exe = match std::env::current_exe() {
+        Ok(e) => e,
+        Err(_) => return "noexe".into(),
+    };
+    let mut child = match std::process::Command::new(exe).arg("--openchild").arg(&path).stdin(std::process::Stdio::null()).stdout(std::process::Stdio::piped()).stderr(std::process::Stdio::null()).spawn() {
+        Ok(c) => c,
+        Err(_) => return "nospawn".into(),
+    };
+    let t0 = std::time::Instant::now();
+    let res = loop {
+        match child.try_wait() {
+            Ok(Some(st)) => {
+                let mut out = String::new();
+                if let Some(mut o) = child.stdout.take() {
+                    use std::io::Read;
+                    let _ = o.read_to_string(&mut out);
+                }
+                break format!("ok returned code={} wall_ms={} locked={} {}", st.code().unwrap_or(-1), t0.elapsed().as_millis(), locked, out.trim());
+            }
+            Ok(None) => {}
+            Err(_) => break "waiterr".into(),
+        }
+        if t0.elapsed().as_millis() as u64 > wd {
+            let _ = child.kill();
+            let _ = child.wait();
+            break format!("ok hung wall_ms={} locked={} (the client had not returned from opening the segment; child killed)", t0.elapsed().as_millis(), locked);
+        }
+        std::thread::sleep(std::time::Duration::from_millis(10));
+    };
+    drop(file);
+    let _ = std::fs::remove_file(&path);
+    res
 }
 
 fn mapped_ranges() -> Vec<(u64, u64)> {
@@ -294,6 +430,7 @@ fn cmd_threads(a: &[&str]) -> String {
         .arg("--threads")
         .args(&a[..a.len().min(3)])
         .arg(a.get(4).copied().unwrap_or("0"))
+        .arg(a.get(5).copied().unwrap_or("0"))
         .stdin(std::process::Stdio::null())
         .stdout(std::process::Stdio::piped())
         .stderr(std::process::Stdio::null())
@@ -337,6 +474,9 @@ fn main() {
     if argv.get(1).map(|s| s.as_str()) == Some("--wipecrash") {
         wipecrash_child(&argv[2..]);
     }
+    if argv.get(1).map(|s| s.as_str()) == Some("--openchild") {
+        openchild(&argv[2..]);
+    }
     let stdin = std::io::stdin();
     let stdout = std::io::stdout();
     let mut out = stdout.lock();
@@ -375,6 +515,7 @@ fn main() {
             "snapshot_busy" => seg::cmd_snapshot_busy(&rest),
             "e2e" => daemon::cmd_e2e(&rest),
             "threads" => cmd_threads(&rest),
+            "openlocked" => cmd_openlocked(&rest),
             "unmapcheck" => cmd_unmapcheck(&rest),
             "wipecrash" => cmd_wipecrash(&rest),
             "ping" => "pong".to_string(),
